@@ -9,3 +9,8 @@ package asthelper
 //@ pure
 //@ nobody
 //@ ensures def (= result (docContains file s))
+
+//@ -- syntactic queries on AST nodes (read-only; used as functions of their arguments)
+//@ func IsLiteral
+//@ pure
+//@ nobody
